@@ -312,6 +312,8 @@ func (c16) Exec(sc *sim.Scenario, env *sim.Env) *sim.Violation {
 	a := asm.NewEmitter(aTarget, gentext)
 	d := asm.NewEmitter(mk(acap), gentext)
 	var e, e2 *asm.Emitter
+	var e2Snap asmSnap // the discarded sibling clone as it was left
+	haveE2 := false
 	var outer *asm.Emitter // the first-level clone while a nested clone is being filled
 	listings := gentext && !nilTargets
 
@@ -354,6 +356,8 @@ func (c16) Exec(sc *sim.Scenario, env *sim.Env) *sim.Violation {
 				if e2 != nil {
 					asmApply(e2, sim.Op{K: "ins", S: "NOP"})
 					st.Probe("second_clone_alive")
+					e2Snap = snapEmitter(e2)
+					haveE2 = true
 				}
 			}
 			phase = 1
@@ -531,6 +535,7 @@ func (c16) Exec(sc *sim.Scenario, env *sim.Env) *sim.Violation {
 			pd, md := asmApply(d, op)
 			if e2 != nil {
 				asmApply(e2, op) // the sibling clone: same calls, addresses one byte higher
+				e2Snap = snapEmitter(e2)
 			}
 			env.ObsBool(pe)
 			if pe != pd {
@@ -589,6 +594,13 @@ func (c16) Exec(sc *sim.Scenario, env *sim.Env) *sim.Violation {
 	}
 	if cross {
 		st.MarkNontrivial()
+	}
+	if haveE2 {
+		// a clone that was put aside is an emitter of its own: what the original and the other
+		// clone went through afterwards does not reach it
+		if d := e2Snap.diff(snapEmitter(e2), true); d != "" {
+			return &sim.Violation{Oracle: "clone_not_isolated", Step: len(sc.Ops), Msg: "a clone that was put aside right after Clone changed through later operations on the original and its other clone: " + d}
+		}
 	}
 	st.ProbeIf(len(labelsHead) > 0 && len(labelsTail) > 0, "label_on_both_sides")
 	st.State(sim.HashU64(sim.HashU64(uint64(headSize), uint64(tailSize)), uint64(capmode)))
